@@ -191,15 +191,44 @@ class _PathProxy:
 
 
 class OsProxy:
+    """stands in for the ``os`` module: pure helpers pass through, file-system access goes to the
+    virtual tree, anything else is an engine limit (never the real file system)"""
+    PURE = {'sep', 'linesep', 'pathsep', 'curdir', 'pardir', 'extsep', 'altsep', 'name', 'devnull', 'fspath', 'fsencode',
+            'fsdecode', 'getpid', 'strerror', 'error', 'PathLike', 'cpu_count', 'urandom', 'getenv', 'environ'}
+
     def __init__(self, vfs):
         self._v = vfs
         self.path = _PathProxy(vfs)
-        self.sep = '/'
+        self._fds = {}
 
     def getcwd(self):
         return self._v.cwd
 
+    def open(self, path, flags, mode=0o777, **kw):
+        """os.open for writing: returns a fake descriptor remembering whether O_TRUNC was given"""
+        if not (flags & (_os.O_WRONLY | _os.O_RDWR)):
+            raise EngineLimit('os.open for reading is not modelled')
+        ab = self._v.abspath(path)
+        if not (flags & _os.O_CREAT) and not self._v.exists(ab):
+            raise FileNotFoundError(2, 'No such file or directory', path)
+        fd = 1000 + len(self._fds)
+        self._fds[fd] = (ab, bool(flags & _os.O_TRUNC), bool(flags & _os.O_APPEND))
+        self._v.writes.append(('open-w', ab))
+        return fd
+
+    def fdopen(self, fd, mode='r', *a, **kw):
+        ab, trunc, append = self._fds[fd]
+        old = self._v.files.get(ab)
+        w = _Writer(self._v, ab, 'b' in mode)
+        if not trunc and old is not None and old.kind in ('bytes', 'text', 'written'):
+            # not truncated: whatever the old file held beyond the newly written bytes stays
+            w.chunks.append(('OLD-CONTENT-NOT-TRUNCATED', old.kind))
+        return w
+
+    def close(self, fd):
+        self._fds.pop(fd, None)
+
     def __getattr__(self, name):
-        if name in ('remove', 'unlink', 'rename', 'replace', 'mkdir', 'makedirs', 'rmdir', 'chdir', 'listdir'):
-            raise EngineLimit('os.%s is not modelled by the virtual file system' % name)
-        return getattr(_os, name)
+        if name in OsProxy.PURE or (name.startswith('O_') and name.isupper()) or name.startswith('SEEK_'):
+            return getattr(_os, name)
+        raise EngineLimit('os.%s is not modelled by the virtual file system' % name)
